@@ -28,6 +28,8 @@ class Std(Scenario):
         self.reconnects = g('reconnects', self.connects)
         self.budgets = dict(g('budgets', {}))
         self.pub_qos = g('pub_qos', (0, 1, 2))
+        self.pub_retain = g('pub_retain', (False,))
+        self.bandwidths = g('bandwidths', ())
         self.sub_shapes = g('sub_shapes', ('str',))
         self.unsub_shapes = g('unsub_shapes', ('str',))
         self.windows = g('windows', ())
@@ -143,7 +145,13 @@ class Std(Scenario):
                 if can_api:
                     if w.profile != 'sub' and left('pub') > 0:
                         for q in self.pub_qos:
-                            out.append(('pub', a, q))
+                            for rt in self.pub_retain:
+                                out.append(('pub', a, q) if not rt else ('pub', a, q, True))
+                    if left('setbw') > 0:
+                        for (b, f) in self.bandwidths:
+                            out.append(('setbw', a, b, f))
+                    if left('appping') > 0:
+                        out.append(('appping', a))
                     if w.profile != 'pub':
                         if left('sub') > 0:
                             for s in self.sub_shapes:
